@@ -398,6 +398,149 @@ Example s8_other_ending :
 Proof. vm_compute. reflexivity. Qed.
 
 (* ================================================================================================
+   Part 5: invariants for sessions of ANY size
+   ================================================================================================ *)
+
+Ltac pssimpl_in H :=
+  repeat first [ rewrite ps_relay in H | rewrite ps_drop_link_of in H | rewrite ps_drop_link in H | rewrite ps_push_up in H
+               | rewrite ps_push_down in H | rewrite ps_setp in H | rewrite ps_mk in H ].
+
+Lemma NoDup_without c l : NoDup l -> NoDup (without c l).
+Proof. intros H. unfold without. apply NoDup_filter. exact H. Qed.
+Lemma elem_of_without c l d : d ∈ without c l <-> d <> c /\ d ∈ l.
+Proof. unfold without. rewrite elem_of_list_filter. reflexivity. Qed.
+Lemma NoDup_snoc_fresh (c : peer) l : NoDup l -> c ∉ l -> NoDup (l ++ [c]).
+Proof. intros H1 H2. apply NoDup_app. split; [exact H1|]. split; [|apply NoDup_singleton]. intros x Hx Hx'. apply elem_of_list_singleton in Hx'. subst. contradiction. Qed.
+
+Ltac old_wf Hwf :=
+  match goal with
+  | |- wf_peer ?t =>
+      match goal with
+      | H : ps _ !! _ = Some ?y |- _ =>
+          match t with context [y] => destruct (Hwf _ _ H) as (W1 & W2 & W3 & W4 & W5 & W6) end
+      end
+  end.
+
+Lemma wf_step s e s' : roles_inv s -> step s e = Some s' -> forall p x, ps s' !! p = Some x -> wf_peer x.
+Proof.
+  intros (Hwf & Hcl & Hlk) Hs p x Hx.
+  destruct e; step_inv Hs; pssimpl_in Hx;
+    repeat (apply lookup_insert_Some in Hx as [[<- <-]|[? Hx]]);
+    try (eapply Hwf; eassumption);
+    old_wf Hwf; unfold wf_peer, srv_gate, cli_gate in *; simpl; bool_hyps;
+    split_and?; intros; simpl in *;
+    try (first [ tauto | congruence | eauto using NoDup_without, NoDup_snoc_fresh; fail ]).
+  all: try (split_and?; first [ tauto | congruence | eauto using NoDup_without, NoDup_snoc_fresh; fail ]).
+  all: try (destruct (hosting _) eqn:?; intuition congruence).
+  - destruct (client_of p1) eqn:?; [left; eauto|destruct (W2 eq_refl); congruence].
+  - destruct (clients p0); [auto|discriminate].
+Qed.
+
+Lemma insert_dom (m : gmap peer ppeer) i x j : is_Some (m !! i) -> (is_Some (<[i:=x]> m !! j) <-> is_Some (m !! j)).
+Proof.
+  intros Hi. rewrite lookup_insert_is_Some. split.
+  - intros [->|[_ H]]; assumption.
+  - intros H. destruct (decide (i = j)); [left; assumption|right; split; assumption].
+Qed.
+
+Lemma step_dom s e s' : step s e = Some s' -> forall p, is_Some (ps s' !! p) <-> is_Some (ps s !! p).
+Proof.
+  intros Hs p. destruct e; step_inv Hs; pssimpl; rewrite ?insert_dom; try reflexivity;
+    rewrite ?insert_dom; eauto.
+Qed.
+
+Lemma clients_step s e s' : roles_inv s -> step s e = Some s' ->
+  forall h x c, ps s' !! h = Some x -> c ∈ clients x -> c <> h /\ is_Some (ps s' !! c).
+Proof.
+  intros (Hwf & Hcl & Hlk) Hs h x c Hx Hc. rewrite (step_dom _ _ _ Hs).
+  destruct e; step_inv Hs; pssimpl_in Hx;
+    repeat (apply lookup_insert_Some in Hx as [[<- <-]|[? Hx]]);
+    try (eapply Hcl; eassumption);
+    simpl in Hc; rewrite ?elem_of_without in Hc;
+    try (eapply Hcl; [eassumption|tauto]).
+  bool_hyps. apply elem_of_app in Hc as [Hc|Hc]; [eapply Hcl; eassumption|].
+  apply elem_of_list_singleton in Hc. subst. split; [assumption|eauto].
+Qed.
+
+Lemma links_step s e s' : roles_inv s -> step s e = Some s' ->
+  forall c y h, ps s' !! c = Some y -> link_up y = true -> client_of y = Some h -> c <> h /\ is_Some (ps s' !! h).
+Proof.
+  intros (Hwf & Hcl & Hlk) Hs c y h Hy Hl Hc. rewrite (step_dom _ _ _ Hs).
+  destruct e; step_inv Hs; pssimpl_in Hy;
+    repeat (apply lookup_insert_Some in Hy as [[<- <-]|[? Hy]]);
+    try (eapply Hlk; eassumption);
+    simpl in Hl, Hc; try discriminate;
+    try (eapply Hlk; eassumption).
+  bool_hyps. rewrite Heqo0 in Hc. injection Hc as <-. split; [assumption|eauto].
+Qed.
+
+Lemma roles_inv_step s e s' : roles_inv s -> step s e = Some s' -> roles_inv s'.
+Proof.
+  intros Hinv Hs. split; [|split].
+  - eapply wf_step; eauto.
+  - eapply clients_step; eauto.
+  - eapply links_step; eauto.
+Qed.
+
+Lemma roles_inv_run tr : forall s s', roles_inv s -> run s tr = Some s' -> roles_inv s'.
+Proof.
+  induction tr as [|e tr IH]; intros s s' Hinv Hrun; simpl in Hrun.
+  - inversion Hrun; subst. exact Hinv.
+  - destruct (step s e) as [s1|] eqn:Hs; [|discriminate]. eapply IH; [|exact Hrun]. eapply roles_inv_step; eauto.
+Qed.
+
+(* ---------- the initial sessions ---------- *)
+
+Lemma elem_of_client_ids n c : c ∈ client_ids n <-> (1 <= c <= N.of_nat n)%N.
+Proof.
+  unfold client_ids. rewrite elem_of_list_fmap. split.
+  - intros (i & -> & Hi). apply elem_of_seq in Hi. lia.
+  - intros Hc. exists (N.to_nat c). split; [lia|]. apply elem_of_seq. lia.
+Qed.
+Lemma NoDup_client_ids n : NoDup (client_ids n).
+Proof. unfold client_ids. apply NoDup_fmap_2; [intros a b Hab; lia|apply NoDup_seq]. Qed.
+
+Lemma const_map_lookup (cs : list peer) (v : ppeer) p :
+  (list_to_map ((fun c => (c, v)) <$> cs) : gmap peer ppeer) !! p = if decide (p ∈ cs) then Some v else None.
+Proof.
+  induction cs as [|c cs IH]; [simpl|rewrite fmap_cons, list_to_map_cons].
+  - rewrite lookup_empty. destruct (decide (p ∈ [])) as [H|_]; [inversion H|reflexivity].
+  - destruct (decide (c = p)) as [->|Hne].
+    + rewrite lookup_insert. destruct (decide (p ∈ p :: cs)) as [_|Hn]; [reflexivity|]. exfalso. apply Hn. left.
+    + rewrite lookup_insert_ne by exact Hne. rewrite IH.
+      destruct (decide (p ∈ cs)) as [Hin|Hn]; destruct (decide (p ∈ c :: cs)) as [Hin'|Hn']; try reflexivity.
+      * exfalso. apply Hn'. right. exact Hin.
+      * exfalso. apply elem_of_cons in Hin' as [->|Hin']; [apply Hne; reflexivity|apply Hn; exact Hin'].
+Qed.
+
+Lemma session_lookup n p :
+  ps (session n) !! p = if decide (p = host) then Some (idle_host (client_ids n))
+                        else if decide (p ∈ client_ids n) then Some (idle_client host) else None.
+Proof.
+  unfold session. rewrite ps_mk. simpl. destruct (decide (p = host)) as [->|Hne].
+  - rewrite lookup_insert. reflexivity.
+  - rewrite lookup_insert_ne by (intros H; apply Hne; symmetry; exact H). apply const_map_lookup.
+Qed.
+
+Lemma roles_inv_session n : roles_inv (session n).
+Proof.
+  split; [|split].
+  - intros p x Hx. rewrite session_lookup in Hx. repeat case_decide; simplify_eq.
+    + unfold wf_peer, idle_host; simpl. split_and?; try (intros; (discriminate || auto)). apply NoDup_client_ids.
+    + unfold wf_peer, idle_client; simpl. split_and?; try (intros; (discriminate || eauto)). apply NoDup_nil_2.
+  - intros h x c Hx Hc. rewrite session_lookup in Hx. rewrite session_lookup.
+    destruct (decide (h = host)) as [->|Hh].
+    + injection Hx as <-. simpl in Hc. apply elem_of_client_ids in Hc as Hc'. unfold host in *.
+      split; [lia|]. rewrite decide_False by lia. rewrite decide_True by exact Hc. eauto.
+    + destruct (decide (h ∈ client_ids n)); [|discriminate]. injection Hx as <-. inversion Hc.
+  - intros c y h Hy Hl Hc. rewrite session_lookup in Hy. rewrite session_lookup.
+    destruct (decide (c = host)) as [->|Hh].
+    + injection Hy as <-. discriminate.
+    + destruct (decide (c ∈ client_ids n)); [|discriminate]. injection Hy as <-. simpl in Hc. injection Hc as <-.
+      split; [exact Hh|]. rewrite decide_True by reflexivity. eauto.
+Qed.
+
+(* ================================================================================================
    Part 6: a chain of promotions (two peers): promote 1, then promote 0 back
    ================================================================================================ *)
 
